@@ -1,4 +1,4 @@
-//go:build verif
+//go:build verif && !nosplit
 
 package bp
 
